@@ -17,7 +17,7 @@ import (
 //verif:harness H11_variate property=C11 native=no solver=cvc5 quick=m=1;m=2 thorough=m=1;m=2
 //verif:subst H11_variate (*math/rand.Rand).Uint32 github.com/facebookincubator/dns/dnsrocks/db.verifRandUint32
 //verif:subst H11_variate math.Pow github.com/facebookincubator/dns/dnsrocks/db.verifPowRecord
-//verif:harness H11_wrs property=C11 native=no solver=cvc5 quick=m=1,max=1;m=2,max=1;m=2,max=2;m=3,max=2 thorough=m=3,max=1;m=3,max=3;m=4,max=2;m=4,max=8;m=5,max=3
+//verif:harness H11_wrs property=C11 native=no solver=cvc5 quick=m=1,max=1;m=2,max=1;m=2,max=2;m=3,max=2 thorough=m=3,max=1;m=3,max=3
 //verif:subst H11_wrs (*math/rand.Rand).Uint32 github.com/facebookincubator/dns/dnsrocks/db.verifRandUint32
 //verif:subst H11_wrs (*math/rand.Rand).Shuffle github.com/facebookincubator/dns/dnsrocks/db.verifRandShuffle
 //verif:subst H11_wrs math.Pow github.com/facebookincubator/dns/dnsrocks/db.verifPow
